@@ -89,10 +89,11 @@ func runC15(c *eng.Ctx, tier string) {
 	}
 
 	// R-C15-2 install then notify
-	apply := p.Method(setecPkg, "Store", "applyUpdates")
-	if apply == nil {
-		c.Undecided("R-C15-2", nil, 0, "setec.(*Store).applyUpdates", "anchor does not resolve")
-	} else {
+	afs := applyFuncs(c)
+	if len(afs) == 0 {
+		c.Undecided("R-C15-2", nil, 0, "the function installing poll results", "not found")
+	}
+	for _, apply := range afs {
 		var outer *mapLoop
 		for _, ml := range mapLoops(apply) {
 			if _, isP := eng.Origin(ml.Range.X).(*ssa.Parameter); isP {
